@@ -13,7 +13,11 @@ CONFIG = {
                   "sent to accept), C13_witness_shared_address (kernel-checked: the allocation that first looks for a data-less live session of the "
                   "same address gives two opens identifier 0 and one object), C13_spoof_rejected (a message carrying a live id from a non-owner address "
                   "leaves the whole server state equal and is answered BADIP/BADCODEC/dropped, by cases over the command table), "
-                  "C13_closed_id_inert (an id without live session: state equal, BADCONN/BADUSER), C13_foreign_message_preserves (no message "
+                  "C13_closed_id_inert (an id without live session: state equal, BADCONN/BADUSER), C13_live_session_accepts_owner (for every state - whatever the "
+                  "retired table remembers under the identifier, e.g. an earlier closed or expired session of the same address - a message carrying "
+                  "identifier i from the owner of the live session in slot i is never answered BADCONN/BADUSER/BADIP), C13_validate_live_first "
+                  "(regenerated shape fact: validateAndGetUser consults oldConnections only when connections[userId] is nil), C13_witness_retired_first "
+                  "(kernel-checked: consulting the retired table first refuses the owner of a re-issued identifier), C13_foreign_message_preserves (no message "
                   "changes a session of another address or its live slot), C13_foreign_close_harmless (Close() of another session object, even "
                   "one whose id and address were re-used), C13_unrelated_expiry_harmless (a live session heard within ConnectionTimeout survives "
                   "the pruning task after any open/close/expire/reopen history; the task is interpreted from the assignment lists regenerated "
@@ -37,14 +41,17 @@ CONFIG = {
                   "Read op, its in-buffer is everything ever released; a Write issued while chunks are still queued is outside C07's sequential-writer "
                   "model). Still outside: the codecs themselves (C08) - a body is what the session's own codec decodes it to. Address = the string the communicator reports (two clients behind one "
                   "resolver share it). The pruning goroutine cannot be called: its two loops are tied by extracted shape facts (range table, timeout, "
-                  "assignment list) plus one real-time history in the thorough tier (dnsexpire, ~75 s, timeouts shortened through the package variables). "
+                  "assignment list) plus one real-time history in the thorough tier (dnsexpire, ~75 s, timeouts shortened to 30 s / 50 s through the package variables, >= 10 s slack on every deadline). "
                   "Concurrent handler invocations are not modelled (histories are sequential; the real handlers take usersLock only in newUser/closeConnection). "
                   "Trusted: Lean kernel, the hand-written model, the sampled correspondence, the extractor.",
     "technique": "Lean 4 proof (invariant + frame relation over op histories, case analysis over the regenerated command table, expiry interpreted "
                  "from regenerated assignment lists) + model/code differential correspondence + direct isolation monitor",
     "components": [{"name": "dnssess", "timeout": {"quick": 300, "thorough": 1200}},
                    {"name": "dnsexpire", "timeout": {"quick": 60, "thorough": 400}}],
-    "rule": "dnssess: enumerated scenarios (id re-use by the same / another address followed by every session-bound command from owner, old owner "
+    "rule": "dnssess: identifier re-issued while the retired table remembers its previous holder (72 lines: identifier 0 kept by a third session; previous/new holder "
+            "equal, same host other port, other host, IPv6 zones; retired by client close / application Close() / plus a second Close() of the old object; "
+            "then real traffic both ways, option changes and tests on the new session, the previous holder's stale commands, close and re-issue once more); "
+            "enumerated scenarios (id re-use by the same / another address followed by every session-bound command from owner, old owner "
             "and stranger and a second Close() of the old object; spoof table against a session with pending data; 2 or 3 opens from ONE address arriving "
             "before anything moved / after polls and options only / after upstream payload / after downstream payload on the first session, then "
             "every application writes its own bytes and packets with all identifiers are interleaved; 1297 version requests = server "
@@ -54,11 +61,15 @@ CONFIG = {
             "letters), application Close()/Write; ids 0..1295 incl. 35/36/1295; every known query type + unknown ones. non-trivial = at least one "
             "session-bound command succeeded; distinct = distinct op line. Monitor per op: sessions of other owners and retired sessions byte-identical "
             "(incl. last-contact time), a message changes at most the session holding the identifier it carries (also among sessions of one address), "
+            "LIVENESS: a command carrying an identifier, sent by the owner of the live session holding it, is never answered BADCONN/BADUSER/BADIP; "
+            "NON-INTERFERENCE: the history run again without the messages that do not come from the owner of a live session they name gives the same answers and "
+            "final session states; "
             "every v:OK:<id> names an identifier no live session held and exactly one new connection comes out of the real Accept() (that id, that owner, "
             "the live object of that slot, empty streams, never handed out before), a chunk handed out in an answer to identifier i is the chunk the "
             "application wrote to the session holding i (per-object ledger), ids distinct, no object both live and retired, no success answer to an "
             "address without live session, no panic, "
-            "allocation per message <= 24 MiB. dnsexpire (thorough only): one real-time history across a run of the real pruning goroutine.",
+            "allocation per message <= 24 MiB. dnsexpire (thorough only): one real-time history across a run of the real pruning goroutine (a stale retired entry "
+            "dropped under a live session that re-used its id; a live session expiring into the retired table, its id re-issued to the same address and used).",
     "trusted_base": COMMON_TB + ["models SA.Model.DnsServer / SA.Model.DnsSessions hand-written; tied by per-op comparison of answers and of the full session snapshot",
                                  "codecs (internal/util/enc and third-party base32/64/85/91/128) are a parameter of the model: the op line carries what the real Decode returned",
                                  "go/extract/x_c13.go reads the loop shapes (range table, timeout, assignments) of the pruning goroutine"],
